@@ -318,6 +318,29 @@ def _space(names, dt):
     return sp, nodes
 
 
+def _layouts(ndim):
+    """Memory layouts of an ``out`` array: the documentation restricts shape and dtype only."""
+    return ['C', 'strided'] + (['F'] if ndim >= 2 else [])
+
+
+def _lay(name, layout):
+    """Convention name with the layout (the plain name is the fresh C-contiguous array)."""
+    return name if layout == 'C' else '%s[%s]' % (name, layout)
+
+
+def _out_array(shape, dt, layout):
+    """(out array of the given layout, guard() -> True if nothing outside of it was written)."""
+    shape = tuple(shape)
+    if layout == 'C':
+        return np.empty(shape, dtype=dt), None
+    if layout == 'F':
+        return np.empty(shape, dtype=dt, order='F'), None
+    # every second entry of the last axis of a larger buffer
+    big = np.empty(shape[:-1] + (2 * shape[-1],), dtype=dt)
+    snap = big[..., 1::2].tobytes()
+    return big[..., ::2], (lambda: big[..., 1::2].tobytes() == snap)
+
+
 def _generic(nshape, dt):
     """Array of pairwise distinct small dyadic values (strings for 'U')."""
     n = int(np.prod(nshape))
@@ -392,6 +415,12 @@ def _run_interp(cfg):
             keep = [t for t in p if not R.is_tie(c, t)]     # a rounded midpoint is not a tie
             rec.skipped += len(p) - len(keep)
             p = keep
+            # instead: points 1e-9 of a spacing left and right of every midpoint, far above
+            # double precision round-off, so the closest node is decided (also for float32
+            # *values*: the points are double precision numbers)
+            for i in range(len(c) - 1):
+                h = float(c[i + 1] - c[i])
+                p = p + [float(c[i]) + h * (0.5 - 1e-9), float(c[i]) + h * (0.5 + 1e-9)]
         pts.append(p)
     pshape = tuple(len(p) for p in pts)
     W, ok = R.tensor_matrix(cvecs, pts, schemes)
@@ -488,15 +517,22 @@ def _run_interp(cfg):
         conv('dense_mesh', lambda: I(dense), want_g)
 
     # out= (documented: "If out was given, the returned object is a reference to it")
-    def with_out(x, shape):
-        o = np.empty(shape, dtype=npdt)
+    # whatever the memory layout of out: it "needs to have correct shape" and dtype, no more
+    def with_out(x, shape, layout):
+        o, guard = _out_array(shape, npdt, layout)
         r = I(x, out=o)
         if r is not o and not (isinstance(r, np.ndarray) and np.shares_memory(r, o)):
-            rec.viol(site, 'out_not_returned', '%s: result is not the given out array' % where)
+            rec.viol(site, 'out_not_returned', '%s: result is not the given out array (%s)'
+                     % (where, layout))
+        if guard is not None and not guard():
+            rec.viol(site, 'out_wrote_outside', '%s: memory between the entries of a strided '
+                     'out was modified' % where)
         return o
 
-    conv('mesh_out', lambda: with_out(mesh, pshape), want_g)
-    conv_flat('point_array_out', lambda: with_out(pa, (pa.shape[1],)))
+    for lay in _layouts(d):
+        conv(_lay('mesh_out', lay), lambda: with_out(mesh, pshape, lay), want_g)
+    for lay in _layouts(1):
+        conv_flat(_lay('point_array_out', lay), lambda: with_out(pa, (pa.shape[1],), lay))
 
     # every single point
     first_bad = None
@@ -913,17 +949,25 @@ def _run_sfunc(cfg):
             rec.evals += 1
             got = np.asarray(got)
             if got.shape != np.shape(w) or not np.array_equal(got, w):
-                rec.viol(site, '%s_differs' % name, '%s case %s axes %s: expected %s, got %s'
-                         % (where, label, axes, _short(w), _short(got)))
+                # non-C layouts of out: one report per layout and case (first convention)
+                key = name[name.index('['):] if '[' in name else None
+                if key is None or key not in seen_exc:
+                    seen_exc.add(key)
+                    rec.viol(site, '%s_differs' % name,
+                             '%s case %s axes %s: expected %s, got %s'
+                             % (where, label, axes, _short(w), _short(got)))
             elif got.dtype != sdt and name not in ('point',):
                 rec.viol(site, '%s_dtype' % name, '%s case %s: dtype %s, expected %s'
                          % (where, label, got.dtype, sdt))
 
-        def with_out(x, shape, via_pc=False):
-            o = np.empty(shape, dtype=sdt)
+        def with_out(x, shape, via_pc=False, layout='C'):
+            o, guard = _out_array(shape, sdt, layout)
             r = (DU.point_collocation(F, x, out=o, **kw) if via_pc else F(x, out=o, **kw))
             if via_pc and r is not o:
                 rec.viol(site, 'out_not_returned', '%s case %s' % (where, label))
+            if guard is not None and not guard():
+                rec.viol(site, 'out_wrote_outside', '%s case %s: memory between the entries '
+                         'of a strided out was modified' % (where, label))
             return o
 
         conv('mesh', lambda: F(mesh, **kw), want)
@@ -940,6 +984,14 @@ def _run_sfunc(cfg):
         conv('mesh_out', lambda: with_out(mesh, val + pshape), want)
         conv('collocation_out', lambda: with_out(mesh, val + pshape, True), want)
         conv('point_array_out', lambda: with_out(pa, val + (pa.shape[1],)), wantf)
+        # the same with out arrays that are not C-contiguous
+        for lay in _layouts(len(val + pshape))[1:]:
+            conv(_lay('mesh_out', lay), lambda: with_out(mesh, val + pshape, False, lay), want)
+            conv(_lay('collocation_out', lay),
+                 lambda: with_out(mesh, val + pshape, True, lay), want)
+        for lay in _layouts(len(val) + 1)[1:]:
+            conv(_lay('point_array_out', lay),
+                 lambda: with_out(pa, val + (pa.shape[1],), False, lay), wantf)
         for n in range(pa.shape[1]):
             p = pa[:, n]
             x = float(p[0]) if d == 1 else (np.array(p) if n % 2 == 0 else p.tolist())
@@ -1019,18 +1071,20 @@ def _run_resample(cfg):
         rec.viol(site, pre + _exc(ex), '%s: %r' % (where, ex))
     # in-place call of the operator
     site = site0
-    o = ran.element(np.zeros(ran.shape, dtype=npdt))
-    try:
-        r = op(dom.element(g), out=o)
-        rec.evals += 1
-        if r is not o:
-            rec.viol(site, 'out_not_returned', where)
-        if not _same(o.asarray(), want, exact, npdt, ok):
-            rec.viol(site, 'out_call_differs', '%s x=%s: expected %s, got %s'
-                     % (where, _short(g), _short(want), _short(o.asarray())))
-    except Exception as ex:
-        rec.viol(site, 'out_call_' + _exc(ex), '%s: op(x, out=range.element()): %r'
-                 % (where, ex))
+    for lay in ['C'] + (['F'] if d >= 2 else []):
+        o = ran.element(np.zeros(ran.shape, dtype=npdt, order=lay), order=lay)
+        name = _lay('out_call', lay)
+        try:
+            r = op(dom.element(g), out=o)
+            rec.evals += 1
+            if r is not o:
+                rec.viol(site, 'out_not_returned', where)
+            if not _same(o.asarray(), want, exact, npdt, ok):
+                rec.viol(site, name + '_differs', '%s x=%s: expected %s, got %s'
+                         % (where, _short(g), _short(want), _short(o.asarray())))
+        except Exception as ex:
+            rec.viol(site, '%s_%s' % (name, _exc(ex)),
+                     '%s: op(x, out=range.element()): %r' % (where, ex))
     return rec.result()
 
 
@@ -1115,26 +1169,50 @@ def _run_deform(cfg):
             site = 'linear_deform[out=]'
             where += ' dtype=%s' % dt
         if via == 'function':
-            o = np.zeros(sp.shape, dtype=npdt)
-            tgt = o
+            lays = _layouts(d) + ['aliased']
         else:
-            o = sp.element(np.zeros(sp.shape, dtype=npdt))
-            tgt = o
-        try:
-            r = call(disp, out=o)
-            rec.evals += 1
-            res = np.asarray(tgt)
-            if via == 'function':
-                if not (isinstance(r, np.ndarray) and np.shares_memory(r, o)):
-                    rec.viol(site, 'out_not_returned', where)
-            elif r is not o:
-                rec.viol(site, 'out_not_returned', where)
-            if not _same(res, want, exact, npdt, ok):
-                rec.viol(site, 'out_call_differs', '%s: expected %s, got %s'
-                         % (where, _short(want), _short(res)))
-        except Exception as ex:
-            rec.viol(site, 'out_call_' + _exc(ex),
-                     '%s ndim=%d: out of the shape of the template: %r' % (where, d, ex))
+            lays = ['C'] + (['F'] if d >= 2 else [])
+        for lay in lays:
+            name = _lay('out_call', lay)
+            guard = None
+            tcall = call
+            if via != 'function':
+                o = sp.element(np.zeros(sp.shape, dtype=npdt, order=lay), order=lay)
+            elif lay == 'aliased':
+                # deformation in place: out is the data array of the template itself
+                t2 = sp.element(g.copy())
+                o = t2.asarray()
+                if not np.shares_memory(o, t2.asarray()):
+                    rec.skipped += 1
+                    continue
+
+                def tcall(disp, out=None, t2=t2):
+                    return linear_deform(t2, disp, interp, out=out)
+            else:
+                o, guard = _out_array(sp.shape, npdt, lay)    # NaN-poisoned: must be written
+            try:
+                r = tcall(disp, out=o)
+                rec.evals += 1
+                res = np.asarray(o)
+                if via == 'function':
+                    if not (isinstance(r, np.ndarray) and np.shares_memory(r, o)):
+                        rec.viol(site, 'out_not_returned', '%s (%s)' % (where, lay))
+                elif r is not o:
+                    rec.viol(site, 'out_not_returned', '%s (%s)' % (where, lay))
+                if guard is not None and not guard():
+                    rec.viol(site, 'out_wrote_outside', where)
+                if not _same(res, want, exact, npdt, ok):
+                    rec.viol(site, name + '_differs',
+                             '%s template %s displacement (per grid point) %s, out layout %s: '
+                             'expected %s, got %s' % (where, _short(g), fld[:4], lay,
+                                                      _short(want), _short(res)))
+                elif via == 'function' and not _same(np.asarray(r), want, exact, npdt, ok):
+                    rec.viol(site, name + '_returned_differs', '%s: expected %s, returned %s'
+                             % (where, _short(want), _short(r)))
+            except Exception as ex:
+                rec.viol(site, '%s_%s' % (name, _exc(ex)),
+                         '%s ndim=%d: out of the shape of the template (%s): %r'
+                         % (where, d, lay, ex))
     return rec.result()
 
 
@@ -1208,6 +1286,9 @@ def meta(tier):
                        'a string and with every tuple in {nearest, linear}^d',
             'conventions': 'sparse mesh, dense mesh, mesh with single-point axes (every subset '
                            'of axes), point array (d,N), nested list, every single point, out=',
+            'out_layouts': 'fresh C-contiguous, Fortran-ordered (ndim >= 2), every second entry '
+                           'of the last axis of a larger buffer (the gaps must stay untouched); '
+                           'linear_deform also with out = the data array of the template',
             'sample_shapes': '{1,2,3,4}^d, d=1,2; ' + ('{1,2,3,4}^3' if th else '{1,2,3}^3'),
             'callable_styles': SAMPLE_STYLES,
             'partitions_of_[0,4]': P1,
@@ -1224,7 +1305,8 @@ def meta(tier):
         'assumptions': [
             'exact equality on dyadic grids whose spacings are powers of two; on the two '
             'non-dyadic grids (x3, x5, ud3) relative tolerance 1e-12 (1e-5 single precision) '
-            'and no tie points for the nearest scheme (a rounded midpoint is not a tie)',
+            'and no tie points for the nearest scheme (a rounded midpoint is not a tie); points '
+            '1e-9 of a spacing beside each midpoint are used there instead',
             'node values must be reproduced exactly on every grid for real, integer and string '
             'data; for complex data on the non-dyadic grids within the tolerance (odl casts '
             'the points to complex, numpy complex division gives z/z = 1 +- 1 ulp)',
